@@ -148,6 +148,8 @@ func rawUsers() []confUser {
 		{Name: "capmsg", Pass: "pw4", Raw: []string{"message", "caption"}},
 		{Name: "rec", Pass: "pw5", Raw: []string{"record", "present"}},
 		{Name: "nothing", Pass: "pw6", Raw: []string{}},
+		// a permission listed twice is still one permission
+		{Name: "twice", Pass: "pw7", Raw: []string{"present", "message", "present"}},
 	}
 }
 
